@@ -27,6 +27,14 @@ func fragmentComposer(bi *BasmInstance) error {
 			fragList := strings.Split(fragments, ":")
 
 			cpNewSectionName := "coll_" + strings.Join(fragList, "_")
+			// The joined name is not unique (a:b and a_b give the same one): never replace a section
+			// that is already there
+			for {
+				if _, taken := bi.sections[cpNewSectionName]; !taken {
+					break
+				}
+				cpNewSectionName += "_"
+			}
 
 			fragResin := make([][]string, len(fragList))
 			fragResout := make([][]string, len(fragList))
